@@ -449,7 +449,7 @@ inline int harnessMain(int argc, char** argv, const char* propertyId) {
     if (!law) { fprintf(stderr, "unknown law %s\n", cf.law.c_str()); return 4; }
     G().law = law;
     if (mode == "shrink") {
-      std::vector<uint64_t> m = shrinkForked(*law, cf.choices, law->hangSeconds, 3000);
+      std::vector<uint64_t> m = shrinkForked(*law, cf.choices, law->hangSeconds, 800);
       std::ofstream o(out); o << caseText(law->name, m, m.size(), "", "process died (signal / sanitizer report / hang) while running this case (minimised in fork mode)");
       return 0;
     }
